@@ -3,3 +3,4 @@ import Spec.Rfc
 import Spec.Find
 import Spec.Wire
 import Spec.Canon
+import Spec.Split
